@@ -98,3 +98,225 @@ def ttc_open(L, fn):
         if tags:
             r[tags[0]]
     expect_clean(run, 'ttc')
+
+
+# ------------------------------------------------------------------------------------------ WOFF
+class _ZlibStub:
+    """environment stub for zlib inside WOFF decoding (symbolic mode only): a compressed payload made of symbolic bytes is
+    not a valid zlib stream -> zlib.error, exactly what the C library raises for arbitrary bytes.  Concrete data goes to the
+    real zlib."""
+    import zlib as _z
+    error = _z.error
+
+    @staticmethod
+    def decompress(data, *a):
+        if isinstance(data, (bytes, bytearray)):
+            return _ZlibStub._z.decompress(data, *a)
+        raise _ZlibStub._z.error('Error -3 while decompressing data: incorrect header check')
+
+    @staticmethod
+    def compress(data, *a):
+        return _ZlibStub._z.compress(bytes(data), *a)
+
+
+@kernel('C20', funcs=F_R + ['ttLib/sfnt.py:WOFFDirectoryEntry.decodeData', 'ttLib/sfnt.py:WOFFFlavorData.__init__'],
+        bounds='WOFF: file of concrete length L starting with wOFF + sfnt flavour 0x00010000, table tags concrete, ALL other header and '
+               'directory bytes symbolic (length, numTables, totalSfntSize, meta/priv offsets and lengths, entry offset/compLength/'
+               'origLength/checksum); part = which block is loaded after the directory: table 0, or the metadata/private blocks',
+        assumptions=['a compressed payload of symbolic bytes is not a valid zlib stream (zlib.decompress raises zlib.error); valid streams of '
+                     'the wrong length are outside the claim'],
+        shims=['SFile', 'struct', 'zlib stub (sys.modules) for symbolic payloads'],
+        quick=[dict(L=L, part='table') for L in (8, 43, 44, 63, 64, 70)] + [dict(L=L, part='flavor') for L in (44, 50)],
+        thorough=[dict(L=L, part='table') for L in list(range(4, 72))] + [dict(L=L, part='flavor') for L in (44, 45, 48, 50, 64, 70)],
+        max_paths=60000, conc_cap=80)
+def woff_open(L, part):
+    data = build_bytes(L, b'wOFF', 1)
+    for j, c in enumerate(b'\x00\x01\x00\x00'):
+        if 4 + j < L:
+            data[4 + j] = c
+    if L >= 44:
+        if part == 'table':
+            # keep the flavour-data blocks out of this run (they are the subject of part='flavor')
+            for i in list(range(28, 32)) + list(range(40, 44)):
+                assume(eq(data[i], 0))
+        else:
+            # no tables: numTables == 0
+            assume(eq(data[12], 0))
+            assume(eq(data[13], 0))
+    saved = sys.modules.get('zlib')
+    if symbolic():
+        sys.modules['zlib'] = _ZlibStub
+
+    def run():
+        r = SF.SFNTReader(make_file(data))
+        tags = list(r.keys())
+        if tags:
+            r[tags[0]]
+    try:
+        expect_clean(run, 'woff')
+    finally:
+        if saved is not None:
+            sys.modules['zlib'] = saved
+
+
+# ------------------------------------------------------------------------------------------ undecodable tables are kept verbatim
+class _StubReader:
+    def __init__(self, tables):
+        self.tables = tables
+        self.file = None
+        self.flavor = None
+        self.flavorData = None
+        self.sfntVersion = '\x00\x01\x00\x00'
+
+    def keys(self):
+        return list(self.tables.keys())
+
+    def __contains__(self, tag):
+        return tag in self.tables
+
+    has_key = __contains__
+
+    def __getitem__(self, tag):
+        return self.tables[tag]
+
+    def close(self):
+        pass
+
+
+import fontTools.ttLib.tables._m_a_x_p as T_maxp
+import fontTools.ttLib.tables._h_e_a_d as T_head
+import fontTools.ttLib.tables._h_h_e_a as T_hhea
+import fontTools.ttLib.tables._k_e_r_n as T_kern
+import fontTools.ttLib.tables._c_m_a_p as T_cmap
+import fontTools.ttLib.tables._p_o_s_t as T_post
+import fontTools.misc.fixedTools as _FX
+import fontTools.misc.roundTools as _RT
+shim_all(T_maxp, T_head, T_hhea, T_kern, T_cmap, T_post, DT, _RT)
+
+
+@kernel('C20', funcs=['ttLib/ttFont.py:TTFont._readTable', 'ttLib/ttFont.py:TTFont.getTableData', 'ttLib/tables/DefaultTable.py:DefaultTable.decompile',
+                       'ttLib/tables/DefaultTable.py:DefaultTable.compile', 'ttLib/tables/_m_a_x_p.py:table__m_a_x_p.decompile',
+                       'ttLib/tables/_h_e_a_d.py:table__h_e_a_d.decompile', 'ttLib/tables/_h_h_e_a.py:table__h_h_e_a.decompile',
+                       'ttLib/tables/_k_e_r_n.py:table__k_e_r_n.decompile', 'ttLib/tables/_c_m_a_p.py:table__c_m_a_p.decompile'],
+        bounds='a font opened with ignoreDecompileErrors=True whose table `tag` is n ARBITRARY symbolic bytes (n from the list: every '
+               'truncation below and one above the fixed header size): if the decoder raises, the table object is a DefaultTable whose '
+               'compile() and TTFont.getTableData() return exactly the input bytes',
+        outside=['table payloads longer than the listed sizes', 'OTL/CFF/glyf decoders'],
+        quick=[dict(tag='maxp', n=n) for n in (0, 3, 5, 6, 31, 32)] + [dict(tag='head', n=n) for n in (0, 53)]
+        + [dict(tag='hhea', n=n) for n in (35, 36)] + [dict(tag='kern', n=n) for n in (0, 3, 4, 9)] + [dict(tag='cmap', n=n) for n in (0, 3, 4, 11, 12)],
+        thorough=[dict(tag='maxp', n=n) for n in range(0, 34)] + [dict(tag='head', n=n) for n in (0, 1, 20, 53)]
+        + [dict(tag='hhea', n=n) for n in (0, 35, 36, 37)] + [dict(tag='kern', n=n) for n in range(0, 14)] + [dict(tag='cmap', n=n) for n in range(0, 16)]
+        + [dict(tag='post', n=n) for n in (0, 31, 32, 33)],
+        max_paths=60000, conc_cap=80, collide=True)
+def undecodable_table_kept(tag, n):
+    data = V.bytes('data', n) if n else b''
+    font = TTFont(ignoreDecompileErrors=True, recalcTimestamp=False)
+    font.reader = _StubReader({tag: data})
+    font._tableCache = None
+    try:
+        table = font[tag]
+    except Exception as e:
+        if type(e).__name__ in ('OutOfModel',):
+            raise
+        ob('no-exception-escapes-with-ignoreDecompileErrors', False)
+        observe('escaped', type(e).__name__)
+        return
+    ob('no-exception-escapes-with-ignoreDecompileErrors', True)
+    if type(table) is DT.DefaultTable:
+        ob('fallback-compile-verbatim', eq(tobytes(table.compile(font)), tobytes(data)))
+        ob('fallback-getTableData-verbatim', eq(tobytes(font.getTableData(tag)), tobytes(data)))
+        ob('fallback-has-error-attr', hasattr(table, 'ERROR'))
+    else:
+        ob('decoded', True)
+
+
+# ------------------------------------------------------------------------------------------ failed save leaves the destination untouched
+class _Boom(Exception):
+    pass
+
+
+class _FS:
+    """file-system stub: records every open() for writing"""
+
+    def __init__(self):
+        self.opened = []
+        self.files = {}
+
+    def open(self, path, mode='r', *a, **k):
+        fs = self
+
+        class _F:
+            def __init__(s):
+                s.buf = []
+
+            def write(s, d):
+                s.buf.append(d)
+
+            def __enter__(s):
+                return s
+
+            def __exit__(s, *a):
+                fs.files[path] = s.buf
+                return False
+
+            def close(s):
+                fs.files[path] = s.buf
+        if 'w' in mode or 'a' in mode or '+' in mode:
+            self.opened.append((path, mode))
+        return _F()
+
+
+@kernel('C20', funcs=['ttLib/ttFont.py:TTFont.save', 'ttLib/ttFont.py:TTFont._save', 'ttLib/ttFont.py:TTFont._writeTable', 'ttLib/sfnt.py:SFNTWriter.__setitem__',
+                       'ttLib/sfnt.py:SFNTWriter.close', 'ttLib/ttFont.py:reorderFontTables'],
+        bounds='a font of 3 tables with symbolic 4-byte contents whose compile raises when its index equals a SYMBOLIC crash point k in 0..3 '
+               '(3 = no failure), saved with the real TTFont.save(path) for reorderTables in {True, False, None}, against a file-system '
+               'stub that records every open-for-write: a failed save never opens the destination; a successful one writes a complete '
+               'container that the real reader maps back to the table contents',
+        shims=['open (file-system stub)', 'BytesIO -> SFile', 'struct'],
+        quick=[dict(reorder=r) for r in (True, False, None)], max_paths=20000)
+def failed_save_leaves_destination(reorder):
+    k = V.int('crash_at', 0, 3)
+    contents = [V.bytes('t%d' % i, 4) for i in range(3)]
+    tags = ['aaaa', 'bbbb', 'cccc']
+
+    class T(DT.DefaultTable):
+        def __init__(s, tag, idx, data):
+            DT.DefaultTable.__init__(s, tag)
+            s.idx = idx
+            s.data = data
+
+        def compile(s, ttFont):
+            if bool(eq(k, s.idx)):
+                raise _Boom('compile failed')
+            return s.data
+    font = TTFont(recalcTimestamp=False)
+    for i, t in enumerate(tags):
+        font[t] = T(t, i, contents[i])
+    fs = _FS()
+    saved_open = TF.__dict__.get('open')
+    TF.open = fs.open
+    failed = False
+    try:
+        try:
+            font.save('/dest/font.ttf', reorderTables=reorder)
+        except _Boom:
+            failed = True
+        except TTLibError:
+            failed = True
+    finally:
+        if saved_open is None:
+            del TF.open
+        else:
+            TF.open = saved_open
+    if failed:
+        ob('destination-not-opened-on-failure', len(fs.opened) == 0)
+        return
+    ob('opened-once', len(fs.opened) == 1 and fs.opened[0][0] == '/dest/font.ttf')
+    written = fs.files.get('/dest/font.ttf', [])
+    blob = written[0] if len(written) == 1 else None
+    ob('single-write', blob is not None)
+    if blob is None:
+        return
+    r = SF.SFNTReader(make_file(tobytes(blob)))
+    ob('all-tables-present', sorted(r.keys()) == tags)
+    ob('contents', conj([eq(tobytes(r[t]), tobytes(contents[i])) for i, t in enumerate(tags)]))
